@@ -172,35 +172,8 @@ class RegExp:
         Returns:
             True if there's a match, False otherwise
         """
-        vm = self._create_vm()
-
-        if (self._global or self._sticky) and self.lastIndex > len(string):
-            # lastIndex beyond the end of the input: no match, not even an empty one
-            self.lastIndex = 0
-            return False
-
-        if self._sticky:
-            result = vm.match(string, self.lastIndex)
-            if result:
-                if self._global:
-                    self.lastIndex = (
-                        result.index + len(result[0]) if result[0] else result.index
-                    )
-                return True
-            if self._global:
-                self.lastIndex = 0
-            return False
-
-        result = vm.search(string, self.lastIndex if self._global else 0)
-        if result:
-            if self._global:
-                # lastIndex becomes the end of the match, also for an empty match
-                self.lastIndex = result.index + len(result[0])
-            return True
-
-        if self._global:
-            self.lastIndex = 0
-        return False
+        # test() is exec() without the match array: same search, same lastIndex updates
+        return self.exec(string) is not None
 
     def exec(self, string: str) -> Optional[MatchResult]:
         """
